@@ -390,12 +390,15 @@ class PointwiseAffine(Fam):
                 # shift / scale written with a leading singleton batch axis, e.g. (1, C, 1, 1) against [N, C, H, W]
                 {"fam": self.name, "shape": [3, 2, 2], "kind": "lead1", "pseed": 5, "deprecated": False},
                 {"fam": self.name, "shape": [4], "kind": "lead1", "pseed": 6, "deprecated": False},
-                {"fam": self.name, "shape": [2, 3], "kind": "lead1_full", "pseed": 7, "deprecated": False}]
+                {"fam": self.name, "shape": [2, 3], "kind": "lead1_full", "pseed": 7, "deprecated": False},
+                # python integers as constructor arguments (AffineScalarTransform(scale=2)): integer buffers, which .double() leaves alone
+                {"fam": self.name, "shape": [3], "kind": "int_scalar", "pseed": 8, "deprecated": True},
+                {"fam": self.name, "shape": [2, 2, 2], "kind": "int_scalar", "pseed": 9, "deprecated": False}]
 
     def _params(self, cfg):
         g = np.random.default_rng(cfg["pseed"])
         shape = cfg["shape"]
-        if cfg["kind"] == "scalar":
+        if cfg["kind"] in ("scalar", "int_scalar"):
             sshape = ()
         elif cfg["kind"] == "full":
             sshape = tuple(shape)
@@ -414,6 +417,8 @@ class PointwiseAffine(Fam):
         shift, scale = self._params(cfg)
         if cfg["kind"] == "scalar":
             shift, scale = float(shift), float(scale)
+        if cfg["kind"] == "int_scalar":
+            shift, scale = int(cfg["pseed"] % 3) - 1, [2, -3, 5][cfg["pseed"] % 3]
         cls = T.AffineTransform if cfg.get("deprecated") else T.PointwiseAffineTransform
         return cls(shift=shift, scale=scale)
 
